@@ -111,6 +111,8 @@ def _harness(c, cfg):
     c.prove("C17:allocation-in-the-declared-unit(weights-vs-contracts)", type(executed.allocation).__name__ == want_type,
             info=type(executed.allocation).__name__)
     c.prove("C17:whole-lot-mode-as-declared", executed.fractional == cfg.get("fractional", True))
+    c.prove("C17:trade-threshold-as-declared", executed.margin == cfg.get("space_margin", 0.0),
+            info={"got": executed.margin})
     # ---- executed as the allocation it denotes: cash entry ignored, zero entries dropped
     got = dict(executed.allocation.items())
     if kind == "sym":
@@ -129,8 +131,8 @@ def _harness(c, cfg):
             c.prove("C17:zero-entry-is-dropped", con not in got)
     c.prove("C17:no-foreign-allocation-entries", all(any(k_ is con for con in ep.space_contracts) for k_ in got))
     # residual held as cash: position*price = w*NLV_pre for every traded contract (C03), rest in cash
-    if not cfg.get("fractional", True):
-        pass        # whole lots: quantities are truncated (C12 owns that); unit and mode were checked above
+    if not cfg.get("fractional", True) or cfg.get("space_margin"):
+        pass        # whole lots / a trade threshold (small trades are filtered: C12 owns that): quantities are truncated (C12 owns that); unit and mode were checked above
     elif cfg.get("as_weights", True):
         nlv_pre = executed.context_pre.nlv
         total = 0.0
@@ -184,6 +186,7 @@ def configs(tier):
         add(N=4, M=0, action="idx-ok3", delay=d, inject_at=1, space="discrete", as_weights=False, cash_in_space=True)
         add(N=4, M=0, action="idx-ok1", delay=d, inject_at=1, space="discrete", fractional=False)
     add(N=4, M=0, action="sym", delay=0, inject_at=1, two_contracts=True, cash_in_space=True, low=0.0, high=1.0)
+    add(N=4, M=0, action="sym", delay=0, inject_at=1, space_margin=0.05)
     add(N=4, M=0, action="sym", delay=1, inject_at=1, two_contracts=True, cash_in_space=True, as_weights=False,
         low=-1.0, high=2.0)
     if tier == "thorough":
